@@ -101,7 +101,7 @@ def check_problem(spec, counters, violations):
     # (4) between consecutive Jacobian steps no knob moves by more than max_step
     nj = 0
     for r in range(1, len(V)):
-        if alpha[r] >= 0:
+        if alpha[r] is not None and alpha[r] >= 0:
             nj += 1
             for i, mx in enumerate(spec["max_step"]):
                 if mx is not None and abs(V[r, i] - V[r - 1, i]) > mx * (1 + 1e-9):
